@@ -299,7 +299,7 @@ theorem isNone_emb (x : Arg) : isNone (embA x) = argIsNone x := by
   | seqLike k xs => cases k <;> simp [embA, embSeq, seqName, isNone, argIsNone]
   | _ => simp [embA, isNone, argIsNone]
 
-theorem pyListAppend_list (l : List PVal) (v : PVal) : pyListAppend (.list l) v = .ok (.list (l ++ [v])) := rfl
+theorem pyListAppend_list (l : List PVal) (v : PVal) : pyListAppendA (.list l) v = .ok (.list (l ++ [v])) := rfl
 
 /-! ### `_flatten_recurse`: the loop over the items, one pass at the model level -/
 
